@@ -2,7 +2,7 @@
    util.list_phrase, Converter.expected of every modelled converter), and str()/repr()
    of the simple values that occur in those phrases. *)
 From Coq Require Import ZArith List Bool String Ascii DecimalString.
-Require Import Base.PyStr Base.Outcome Model.Values Model.Vocab Model.Types Gen.GenScalars.
+Require Import Base.PyStr Base.Outcome Model.Values Model.Vocab Model.Types Gen.GenScalars Gen.GenConds.
 Import ListNotations.
 Open Scope string_scope.
 
@@ -86,11 +86,7 @@ Definition repr_or (v : pyval) : string := match py_repr v with Some s => s | No
 Definition str_or (v : pyval) : string := match py_str v with Some s => s | None => "?" end.
 
 (* ---- conditions: cond_name and make_expected ---- *)
-Definition adj_name (a : adj) : string :=
-  match a with
-  | APositive => "positive" | ANegative => "negative" | ANonPositive => "non-positive"
-  | ANonNegative => "non-negative" | AFinite => "finite" | AEmpty => "empty" | ANonEmpty => "non-empty"
-  end.
+Definition adj_name (a : adj) : string := adj_word a.
 
 Definition opt_list {A} (o : option A) : list A := match o with Some x => [x] | None => [] end.
 
